@@ -330,6 +330,7 @@ func (rs *rowStore) processInserts(offsetsBySource common.OffsetsBySource, stop 
 				rs.memStore = ms
 				rs.mx.Unlock()
 			}
+			vhook("rs.fields.done", rs.t)
 		}
 	}
 }
